@@ -13,7 +13,7 @@ import (
 func init() {
 	register(&propDef{
 		id: "C17", level: "other", run: runC17,
-		explanation: "Decided: constants and guard structure only. (R1) the sentinel is 0x7FFFFFFF (= sint32 invalid of the types table) and Invalid(), Degrees() (NaN guard) and String() (\"Invalid\" guard) of both coordinate types test that same sentinel; Semicircles() returns the stored field. (R2) guard-interval extraction: NewLatitude/NewLongitude touch their argument only through comparisons with constants, so their behaviour is constant on the intervals between those constants; evaluating the SSA at one representative of every interval gives the exact accepted set for all 2^32 inputs, which is compared with the statement (latitude: not the sentinel and within [-2^30, 2^30]; longitude: everything but the sentinel). Known finding: +90 degrees exactly (2^30) is rejected. (R3) the degree constructors reject >= +limit and <= -limit with limit 90/180 and otherwise store int32(degrees * degToSemiFactor). (R4) the factors are 180/2^31 and 2^31/180 (initialisers folded over a white-list of pure math functions), never reassigned. (R5) String formats Degrees() with 'f', 5 decimals. (R6) time conversions: see C12-R4 (re-checked here). NOT decided (numeric, needs enumeration of 2^32 values): round trip within one semicircle, printed form within 2e-5 degrees, bijection of the second count.",
+		explanation: "Decided: constants and guard structure only. (R1) the sentinel is 0x7FFFFFFF (= sint32 invalid of the types table) and Invalid(), Degrees() (NaN guard) and String() (\"Invalid\" guard) of both coordinate types test that same sentinel; Semicircles() returns the stored field. (R2) guard-interval extraction: NewLatitude/NewLongitude touch their argument only through comparisons with constants, so their behaviour is constant on the intervals between those constants; evaluating the SSA at one representative of every interval gives the exact accepted set for all 2^32 inputs, which is compared with the statement (latitude: not the sentinel and within [-2^30, 2^30]; longitude: everything but the sentinel). Known finding: +90 degrees exactly (2^30) is rejected. (R3) the degree constructors reject >= +limit and <= -limit with limit 90/180 and otherwise store int32(degrees * degToSemiFactor). (R4) the factors are 180/2^31 and 2^31/180 (initialisers folded over a white-list of pure math functions), never reassigned. (R5) String formats Degrees() with 'f', 5 decimals. (R6) time conversions: see C12-R4 (re-checked here). NOT decided (numeric, needs enumeration of 2^32 values): round trip within one semicircle, printed form within 2e-5 degrees, bijection of the second count. (R6-coordinate-kind-history) the coordinate kind (latitude / longitude) of every table row shared with the generator's golden outputs for the bundled earlier SDK versions equals the kind generated there.",
 		trusted:     []string{"exact SSA evaluation at interval representatives (checker/eval.go)", "IEEE-754 semantics of the float operations named", "strconv.FormatFloat"},
 	})
 }
